@@ -180,6 +180,9 @@ func msgClass(v any) string {
 
 // RunLoad performs one load of the layout on the given simulated FS under the
 // active run. It never lets a panic escape.
+// one option function value for the whole process (see Layout.CliSharedOptionFns)
+var sharedDefaultProfiles = cli.WithDefaultProfiles()
+
 func RunLoad(L *Layout, fs *zsimrt.FS, stubFault string, render bool) (out *Outcome) {
 	out = &Outcome{}
 	r := zsimrt.Current()
@@ -223,6 +226,13 @@ func RunLoad(L *Layout, fs *zsimrt.FS, stubFault string, render bool) (out *Outc
 			cli.WithConfigFileEnv, cli.WithDefaultConfigPath, cli.WithResourceLoader(stub), cli.WithLoadOptions(loadOptions(L)...)}
 		if L.Opts.ProjectName != "" && L.Opts.NameImperative {
 			opts = append(opts, cli.WithName(L.Opts.ProjectName))
+		}
+		if L.CliProfilesFromEnv {
+			if L.CliSharedOptionFns {
+				opts = append(opts, sharedDefaultProfiles)
+			} else {
+				opts = append(opts, cli.WithDefaultProfiles())
+			}
 		}
 		po, err = cli.NewProjectOptions(L.Main, opts...)
 		if err == nil {
